@@ -193,7 +193,7 @@ def register(M):
     M('C13_lineno', ['C13', 'C08'], 'parser.py',
       "                lineno += len(slines) + len(wlines)", "                lineno += len(slines)",
       'running line counter ignores want lines')
-    M('C13_dcnt', ['C13', 'C20'], 'parser.py',
+    M('C13_dcnt', ['C13'], 'parser.py',
       "                        if prev_state == DCNT:\n                            # Hack to fix continuation issue\n                            curr_state = DCNT",
       "                        if False:\n                            # Hack to fix continuation issue\n                            curr_state = DCNT",
       "bare '...' after a continuation line is a want")
@@ -209,3 +209,19 @@ def register(M):
       "                elif _hasprefix(line.strip(), ('>>>',)):\n                    curr_state = DSRC\n                elif line_indent < state_indent:",
       "                elif _hasprefix(line.strip(), ('>>>', '...')):\n                    curr_state = DSRC\n                elif line_indent < state_indent:",
       "a want line starting with '...' is taken as source")
+
+    # ---- C20 ---------------------------------------------------------------
+    M('C20_single', ['C20'], 'parser.py',
+      "                if all(_hasprefix(s, ('...',)) for s in source_lines[1:]):\n                    mode_hint = 'single'",
+      "                if all(_hasprefix(s, ('...',)) for s in source_lines[1:]):\n                    pass",
+      'classic examples no longer compiled in single mode')
+    M('C20_group', ['C20'], 'parser.py',
+      "            if left[0] != mid[0] or (mid[0] == 'dsrc' and right[0] == 'dcnt' and\n                                     mid[1].lstrip().startswith('>>>')):",
+      "            if left[0] != mid[0]:",
+      'classic examples are not isolated in their own group')
+    M('C20_prefix', ['C20'], 'directive.py',
+      "    r'x?doctest:\\s*' + named('style2', '.*'),", "    r'xdoctest:\\s*' + named('style2', '.*'),",
+      "'doctest:' no longer accepted as directive prefix")
+    M('C20_blankline', ['C20', 'C05'], 'checker.py',
+      "        want = remove_blankline_marker(want)\n\n    # always", "        pass\n\n    # always",
+      '<BLANKLINE> handling dropped')
